@@ -527,7 +527,7 @@ _DSIGS = {
     "d_q_rotate": ["u", "r"], "d_q_smul": ["s", "Qs"], "d_q_muls": ["Qs", "s"], "d_q_normalize": ["Qs"], "d_q_rcp": ["Qs"],
     "d_q_from_ypr": ["r", "r", "r"], "d_l3_inverse": ["L"], "d_l3_det": ["L"], "d_l3_mul": ["L", "L"], "d_l3_rotate": ["u", "r"],
     "d_l3_from_quat": ["Q"], "d_l3_frame": ["n"], "d_l3_xfmNormal": ["L", "v"], "d_a3_rcp": ["A"], "d_a3_mul": ["A", "A"],
-    "d_a3_xfmPoint": ["A", "v"], "d_a3_lookat": ["LOOK"],
+    "d_a3_xfmPoint": ["A", "v"], "d_a3_lookat": ["LOOK"], "d_l2_orthogonal": ["ORTH"],
 }
 
 
@@ -563,6 +563,14 @@ def gen_double_cases(rng, tier):
                 if i % 5 == 4:
                     q = qaxis(_rand_unit(rng), rng.pick([1.0, -1.0]) * (math.pi - rng.pick([1e-7, 1e-5, 1e-3, 5e-2])))
                 vals = flat(qmat(q))
+            elif nm == "d_l2_orthogonal":
+                # M = R(a) diag(sx, sy) R(b), b = 0 in half of the cases (perpendicular columns), mirrored in a quarter
+                a_, b_ = rng.uniform(-math.pi, math.pi), (0.0 if i % 2 == 0 else rng.uniform(-math.pi, math.pi))
+                sx, sy = rng.pick([0.25, 0.5, 1.0, 2.0, 5.0]), rng.pick([0.25, 0.5, 1.0, 3.0, 5.0])
+                if i % 4 == 3:
+                    sx = -sx
+                rot = lambda t: [[math.cos(t), math.sin(t)], [-math.sin(t), math.cos(t)]]
+                vals = flat(mat_mul(mat_mul(rot(a_), [[sx, 0], [0, sy]]), rot(b_)))
             elif nm == "d_a3_lookat":
                 eye = [rng.uniform(-2, 2) for _ in range(3)]
                 d = _rand_unit(rng)
@@ -645,6 +653,19 @@ def extra_stage(rep, ctx):
             a = [h2d(x) for x in w[1:]]
             if nm == "q_smul_ref":
                 msg = None if _close(res, [a[0] * x for x in a[1:]], 1e-9) else "float * quatd must scale every component: expected %s" % [a[0] * x for x in a[1:]]
+            elif nm == "l2_orthogonal":
+                m_, u_ = _cols(a, 2), _cols(res, 2)
+                msg = None
+                if len(res) != 4 or any(x != x for x in res):
+                    msg = "orthogonal() must return a finite matrix: %s" % res
+                else:
+                    g = mat_mul(transpose(u_), u_)
+                    sym = mat_mul(transpose(u_), m_)
+                    scale = max(abs(x) for x in a)
+                    if not _close(flat(g), [1, 0, 0, 1], 2e-3):
+                        msg = "orthogonal() must return an orthogonal matrix (U^T U = 1): U^T U = %s" % g
+                    elif abs(sym[0][1] - sym[1][0]) > 2e-3 * scale or sym[0][0] <= 0 or sym[1][1] <= 0:
+                        msg = "orthogonal() must return the closest orthogonal matrix (U^T M symmetric positive definite): U^T M = %s" % sym
             elif nm == "q_muls_ref":
                 msg = None if _close(res, [a[4] * x for x in a[:4]], 1e-9) else "quatd * float must scale every component: expected %s" % [a[4] * x for x in a[:4]]
             else:
